@@ -318,8 +318,10 @@ def _crypt(case, world, out):
     pub0 = [public_view(a) for a in accounts]
     sec0 = [secret_view(a) for a in accounts]
     has_secret = [a.private_key is not None for a in accounts]
+    specs = list(case["accounts"])      # grows when an account is created while the wallet is locked
     nonword = [spec["kind"] == "seed" and spec["seed_class"] in ("seed_case_variant", "seed_nonwordlist")
-               for spec in case["accounts"]]
+               for spec in specs]
+    open_locked = set()                 # accounts created while the wallet was locked: open until the next lock()
     forbidden = [f for a in accounts for f in forbidden_strings(a)]
     any_channel = any(a.channel_keys for a in accounts)
     any_secret = any(has_secret)
@@ -374,7 +376,11 @@ def _crypt(case, world, out):
                     got = secret_view(acc)
                     diff = [k for k in got if got[k] != sec0[i][k]]
                     out.violate("secrets-not-restored:" + "+".join(diff), "after %s account %d kind %s" % (
-                        op, i, case["accounts"][i]["kind"]))
+                        op, i, specs[i]["kind"]))
+                    ok = False
+            elif i in open_locked:
+                if acc.encrypted or secret_view(acc) != sec0[i]:
+                    out.violate("account-created-while-locked-changed", "after %s account %d encrypted=%s" % (op, i, acc.encrypted))
                     ok = False
             elif has_secret[i]:
                 if not acc.encrypted or acc.private_key is not None or (sec0[i]["seed"] and acc.seed == sec0[i]["seed"]):
@@ -384,7 +390,7 @@ def _crypt(case, world, out):
             elif st_["flags_reliable"] and not acc.encrypted:
                 out.violate("account-not-flagged-encrypted-while-locked", "after %s account %d" % (op, i))
                 ok = False
-        if st_["locked"] and ok:
+        if st_["locked"] and ok and not open_locked:
             hits = find_plaintext(json.dumps(wallet.to_dict()).encode(), forbidden)
             if hits:
                 out.violate("plaintext-in-locked-to_dict:" + hits[0], "after %s" % op)
@@ -413,6 +419,7 @@ def _crypt(case, world, out):
             check_disk(tag_op)
         elif name == "reload":
             wallet = Wallet.from_storage(WalletStorage(path), world)
+            open_locked.clear()      # what is read back is what the last save wrote: every account under the password
             disk_encrypted = st_["disk_enc"]
             st_.update(locked=disk_encrypted, mem_pw=None, lock_pw=st_["disk_pw"] if disk_encrypted else None)
             out.check(bool(wallet.preferences.get(ENCRYPT_ON_DISK, False)) == st_["pref"], "preference-not-persisted",
@@ -425,6 +432,7 @@ def _crypt(case, world, out):
             r = wallet.lock()
             out.check(r is True, "lock-result", repr(r))
             st_.update(locked=True, lock_pw=st_["mem_pw"])
+            open_locked.clear()
         elif name == "decrypt":
             if st_["locked"]:
                 out.label("skip:decrypt")
@@ -447,15 +455,33 @@ def _crypt(case, world, out):
                 stuck = [i for i, a in enumerate(wallet.accounts) if a.encrypted and has_secret[i]] or \
                     [i for i, a in enumerate(wallet.accounts) if a.encrypted]
                 cls = "seed-not-lowercase-wordlist" if stuck and nonword[stuck[0]] else \
-                    case["accounts"][stuck[0]]["kind"] if stuck else "none-stuck"
+                    specs[stuck[0]]["kind"] if stuck else "none-stuck"
                 out.violate("right-password-refused:" + cls, "%s: unlock(right) -> %r, account %s still encrypted; "
-                            "seed class %s" % (tag_op, r, stuck, case["accounts"][stuck[0]].get("seed_class")
+                            "seed class %s" % (tag_op, r, stuck, specs[stuck[0]].get("seed_class")
                                                if stuck else None))
                 return
             st_.update(locked=False, mem_pw=pw)
+            open_locked.clear()
             out.check(wallet.encryption_password == pw, "password-not-kept-after-unlock", tag_op)
             if any_secret:
                 did["right"] += 1
+        elif name == "add_account_locked":
+            # account_create on a locked wallet (the daemon does not look at the lock state): the wallet is partly locked then
+            if not (st_["locked"] and st_["pref"] and st_["mem_pw"] is not None and any_secret and len(wallet.accounts) < 5):
+                out.label("skip:add_account_locked")
+                continue
+            Account = _imports()[5]
+            acc = Account.generate(world.ledger, wallet, "added-while-locked")
+            pub0.append(public_view(acc))
+            sec0.append(secret_view(acc))
+            has_secret.append(True)
+            nonword.append(False)
+            specs.append({"kind": "seed", "seed_class": "seed_wordlist"})
+            forbidden.extend(forbidden_strings(acc))
+            open_locked.add(len(pub0) - 1)
+            wallet.save()
+            check_disk(tag_op)
+            out.label("account_created_while_locked")
         elif name == "unlock_race":
             if not st_["locked"]:
                 out.label("skip:unlock_race")
@@ -517,6 +543,7 @@ def _crypt(case, world, out):
                                 tag_op, r, w["kind"], race["at"], race["r"]))
                 return
             st_.update(locked=False, mem_pw=pw)
+            open_locked.clear()
             out.check(wallet.encryption_password == pw, "password-not-kept-after-unlock", tag_op)
             if any_secret:
                 did["right"] += 1
@@ -654,7 +681,8 @@ OPS = [["save"], ["reload"], ["reload"], ["unlock_right"], ["unlock_wrong", 0], 
        # j-th database look-up (ensure_cache_primed after each decrypted account)
        ["unlock_race", 0, 0], ["unlock_race", 1, 1], ["unlock_race", 2, 0], ["unlock_race", 3, 2],
        # ... or another task saves the wallet at that moment (some accounts already open, others still locked)
-       ["unlock_race", 0, 0, "save"], ["unlock_race", 1, 0, "save"], ["unlock_race", 2, 0, "save"]]
+       ["unlock_race", 0, 0, "save"], ["unlock_race", 1, 0, "save"], ["unlock_race", 2, 0, "save"],
+       ["add_account_locked"], ["add_account_locked"]]
 
 
 @st.composite
@@ -1232,7 +1260,7 @@ PARTS = [
          essential=WRONG_KINDS + ("acct_seed", "acct_xprv", "acct_xpub", "gen_single", "gen_hd", "with_channel_keys",
                                   "pw_unicode", "pw_astral", "pw_combining", "pw_long", "reload_locked",
                                   "disk_checked_encrypted", "unlocked_with_right_password", "refused_wrong_password",
-                                  "seed_wordlist", "race_wrong_unlock_ran", "race_partly_unlocked", "race_save_partly_unlocked")),
+                                  "seed_wordlist", "race_wrong_unlock_ran", "race_partly_unlocked", "race_save_partly_unlocked", "account_created_while_locked")),
     Part("pack", pack_case, run_pack, 60, 800, quick_shards=2, thorough_shards=16,
          essential=("acct_seed", "acct_xprv", "acct_xpub", "pw_unicode", "unpack_wrong:InvalidPasswordError")),
     Part("crash", crash_case, run_crash, 150, 2500, quick_shards=2, thorough_shards=16,
